@@ -226,7 +226,7 @@ func (a Arith) String() string {
 }
 
 type Item struct {
-	Kind  string `json:"kind"` // "star", "col", "str", "num", "arith"
+	Kind  string `json:"kind"` // "star", "col", "str", "num", "arith", "concat" (Lit holds the text: s + ' ' + t)
 	Path  Path   `json:"path,omitempty"`
 	Lit   string `json:"lit,omitempty"` // string content or number text
 	Q     string `json:"q,omitempty"`   // quote of a string literal
@@ -253,6 +253,8 @@ func (it Item) text() string {
 		e = it.Lit
 	case "arith":
 		e = it.Ar.String()
+	case "concat":
+		e = it.Lit
 	}
 	if it.Alias != "" {
 		kw := it.Kw
@@ -461,6 +463,7 @@ func evalAbort(p *Pred, row gen.Row) (val bool, aborted bool) {
 type expVal struct {
 	v      any  // Go value (gen.Val.Go()) or float64 for arithmetic
 	approx bool // compare numerically with tolerance
+	any    bool // the key must be present; its value is not fixed here (it must still not depend on the history)
 }
 
 func operandVal(o Operand, row gen.Row) (float64, bool) {
@@ -548,6 +551,8 @@ func project(items []Item, row gen.Row) map[string]expVal {
 			} else {
 				out[name] = expVal{v: f, approx: true}
 			}
+		case "concat":
+			out[name] = expVal{any: true}
 		}
 	}
 	return out
@@ -616,6 +621,9 @@ func canonRow(r map[string]any) string {
 }
 
 func sameVal(e expVal, got any) bool {
+	if e.any {
+		return true
+	}
 	if e.approx {
 		want, _ := e.v.(float64)
 		g, ok := gen.ToFloat(got)
